@@ -489,15 +489,30 @@ func toIndex(k V) int {
 	return int(x) // truncation toward zero
 }
 
+type placeMode int
+
+const (
+	mRead       placeMode = iota
+	mStoreLast            // the expression is the target of a store
+	mStoreInner           // the expression is an inner link of a store target
+)
+
 // place evaluates an expression that may denote a location. forStore tells the
 // last link that it is the target of a store.
 func (i *Interp) place(n *ast.Node, forStore bool) *place {
+	if forStore {
+		return i.placeMode(n, mStoreLast)
+	}
+	return i.placeMode(n, mRead)
+}
+
+func (i *Interp) placeMode(n *ast.Node, mode placeMode) *place {
 	i.step()
 	switch n.K {
 	case "paren":
-		return i.place(n.C[0], forStore)
+		return i.placeMode(n.C[0], mode)
 	case "id":
-		if forStore && strings.HasPrefix(string(n.S), "$") {
+		if mode == mStoreLast && strings.HasPrefix(string(n.S), "$") {
 			un("assignment to a $-variable")
 		}
 		return &place{loc: i.variable(string(n.S))}
@@ -505,7 +520,7 @@ func (i *Interp) place(n *ast.Node, forStore bool) *place {
 		if i.ruleRoot == nil {
 			rt("unknown variable $")
 		}
-		if forStore && i.ruleKind != "BEGINFILE" && i.ruleKind != "pattern" {
+		if mode == mStoreLast && i.ruleKind != "BEGINFILE" && i.ruleKind != "pattern" {
 			un("assigning $ outside BEGINFILE and pattern rules")
 		}
 		if i.ruleKind == "ENDFILE" && i.rootTouched {
@@ -513,14 +528,20 @@ func (i *Interp) place(n *ast.Node, forStore bool) *place {
 		}
 		return &place{loc: i.ruleRoot}
 	case "mem", "idx":
-		bp := i.place(n.C[0], false)
+		// the inner links of a store target are evaluated "for a store" too: an
+		// unset base variable becomes a container at every level of the chain
+		baseMode := mRead
+		if mode != mRead {
+			baseMode = mStoreInner
+		}
+		bp := i.placeMode(n.C[0], baseMode)
 		var key V
 		if n.K == "mem" {
 			key = Str(string(n.S))
 		} else {
 			key = i.eval(n.C[1])
 		}
-		return i.member(bp, key, forStore)
+		return i.member(bp, key, mode == mStoreLast, mode != mRead)
 	}
 	return &place{tmp: i.eval(n)}
 }
@@ -530,13 +551,15 @@ func (i *Interp) method(bp *place, recv V, name string) *place {
 	return &place{tmp: V{K: KNative, Nat: &Native{Name: name, Recv: &r, RecvLoc: bp.loc}}}
 }
 
-func (i *Interp) member(bp *place, key V, forStore bool) *place {
+// member resolves one link. forStore: this link is the target of the store;
+// underStore: the link is the target or an inner link of a store target.
+func (i *Interp) member(bp *place, key V, forStore bool, underStore bool) *place {
 	bv := bp.value()
 	if bv.K == KUnset {
 		if bp.loc == nil {
 			un("member of an unset temporary")
 		}
-		if !forStore {
+		if !underStore {
 			// reading x.k of an unset x turns x into a container in the
 			// implementation; no document describes that
 			un("member read of an unset variable")
